@@ -316,6 +316,10 @@ def run_lazy(case):
         a = a | b
     impl = {"a": _fattr(a), "b": _fattr(b)}
     try:
+        a_shape_before = sx(a.getShape(all_ranks=False)) if not a.isLazy() else None
+    except Exception:
+        a_shape_before = None
+    try:
         if pre is not None:
             impl["a_coords"] = [sx(c) for c, _ in a]
         if not isinstance(ft.Payload.get(a.getDefault()), tuple):     # else: no scalar default to follow
@@ -348,6 +352,12 @@ def run_lazy(case):
             z = ft.Fiber.coiterActiveShape([a, b])
         elif n == "coiterRangeShape":
             z = ft.Fiber.coiterRangeShape([a, b], op["lo"], op["hi"])
+        elif n == "coiterShapeRef":
+            z = ft.Fiber.coiterShapeRef([a, b])
+        elif n == "coiterActiveShapeRef":
+            z = ft.Fiber.coiterActiveShapeRef([a, b])
+        elif n == "coiterRangeShapeRef":
+            z = ft.Fiber.coiterRangeShapeRef([a, b], op["lo"], op["hi"])
         elif n == "project":
             k, m = op["k"], op["m"]
             kw = {}
@@ -372,8 +382,8 @@ def run_lazy(case):
             res["coords"] = None
             res["iter_err"] = H.err_class(e)
         impl["res"] = res
-        if n == "coiterShape":
-            impl["a_shape"] = sx(a.getShape(all_ranks=False))
+        if n in ("coiterShape", "coiterShapeRef"):
+            impl["a_shape"] = a_shape_before
     except Exception as e:
         impl["res"] = {"err": H.err_class(e)}
         case["implerr"] = H.err_class(e)
@@ -892,6 +902,9 @@ def _small_scope(tier):
     lops = [{"name": n} for n in ("and", "or", "xor", "sub", "populate", "prune", "intersection", "union",
                                   "coiterShape", "coiterActiveShape")]
     lops += [{"name": "coiterRangeShape", "lo": 2, "hi": 4}, {"name": "coiterRangeShape", "lo": 0, "hi": 7}]
+    # the Ref variants of the dense co-iterators (they insert the missing elements while iterating)
+    lops += [{"name": "coiterShapeRef"}, {"name": "coiterActiveShapeRef"},
+             {"name": "coiterRangeShapeRef", "lo": 2, "hi": 4}, {"name": "coiterRangeShapeRef", "lo": 0, "hi": 7}]
     for k, m in ((1, 0), (1, 10), (2, 1), (-1, 20), (-2, 9), (3, -2)):
         for iv in (None, [2, 9]):
             for r in (None, "Q"):
@@ -922,7 +935,7 @@ def _small_scope(tier):
         for a in fa[:3] + fu[:2]:
             for b in fb[:1] + fb[2:3] + fbu[:1]:
                 for op in lops:
-                    if op["name"] in ("populate", "coiterShape", "coiterActiveShape", "coiterRangeShape"):
+                    if op["name"] == "populate" or op["name"].startswith("coiter"):
                         continue        # these need an eager first operand
                     if op["name"] == "project" and (op["k"] < 0 or op["interval"] is not None):
                         continue        # a lazy fiber cannot be reversed
